@@ -200,6 +200,9 @@ func (c *Cluster) genesis() {
 	ps := []*SimNode{}
 	for _, n := range c.nodes {
 		ps = append(ps, n)
+		if cfg.LowerKeys && Mix(c.seed^0x6c6f77, uint64(n.idx))%2 == 0 {
+			n.spell = "0x" + strings.ToLower(n.pubHex[2:])
+		}
 	}
 	c.genesisSet = ps
 	keys := []string{}
